@@ -201,12 +201,12 @@ func runC09(c *Ctx) {
 			okCid, okOrig := false, false
 			fields := c.CellFields(msg)
 			if v := fields["Cid"]; v != nil {
-				_, okCid = Match(Field("Cid", Op("param", "")), v)
+				_, okCid = Match(Field("Cid", ParamLike()), v)
 			}
 			if v := fields["OrigPeer"]; v != nil {
-				_, okOrig = Match(Call("peer.ID).String", Field("PeerID", Op("param", ""))), v)
+				_, okOrig = Match(Call("peer.ID).String", Field("PeerID", ParamLike())), v)
 			}
-			addrs := c.Calls(cs.Fn, Call("message.Message).SetAddrs", Any(), Field("Addrs", Op("param", ""))))
+			addrs := c.Calls(cs.Fn, Call("message.Message).SetAddrs", Any(), Field("Addrs", ParamLike())))
 			c.Check(okCid && okOrig && len(addrs) == 1, "C09.A5-republish-attribution", key, cs.In.Pos(), "republished message: same CID, OrigPeer = the publisher's ID, the announcement's addresses", "republished message is not attributed to the original publisher with the same CID/addresses")
 		}
 	}
@@ -220,42 +220,18 @@ func runC09(c *Ctx) {
 		key := c.short(watch.String())
 		sender := Extract("0", Call("peer.IDFromBytes", Field("From", Any())))
 		orig := Field("OrigPeer", Any())
-		selfTest := false
-		var selfIf *ssa.If
-		for _, b := range watch.Blocks {
-			iff, ok := b.Instrs[len(b.Instrs)-1].(*ssa.If)
-			if !ok {
-				continue
-			}
-			cx, val := normFact(c.E(iff.Cond), true)
-			if _, m := Match(Bin("==", sender, Field("hostID", Any())), cx); !m {
-				continue
-			}
-			_, g := c.GuardedB(b, Bin("==", orig, Const(`""`)), false)
-			skip := b.Succs[0]
-			if !val {
-				skip = b.Succs[1]
-			}
-			// the skip edge goes round the loop without handling
-			handled := false
-			for rb := range ReachableFromNoLoop(skip, watch) {
-				for _, in := range rb.Instrs {
-					if ci, ok := in.(ssa.CallInstruction); ok && ci.Common().StaticCallee() != nil && ci.Common().StaticCallee() == c.Role("announce.deliver") {
-						handled = true
-					}
-				}
-			}
-			if g && !handled {
-				selfTest = true
-				selfIf = iff
-			}
+		// the original peer of a republished message is decoded only after the pubsub sender was found to differ
+		// from this host (the comparison must be with the sender: afterwards the source is the original publisher),
+		// and only for messages that carry an original peer
+		decs := c.CallsInl(watch, Call("peer.Decode", orig), 2)
+		for _, d := range decs {
+			_, notSelf := c.GuardedSite(d, Bin("==", sender, Field("hostID", Any())), false)
+			_, hasOrig := c.GuardedSite(d, Bin("==", orig, Const(`""`)), false)
+			c.Check(notSelf && hasOrig, "C09.A6-pubsub-path", key+" › own republication ignored", d.In.Pos(),
+				"the original peer is decoded (and the message handled) only when the pubsub sender is not this host", "the self-republication test does not compare the pubsub sender (msg.From) with this host's ID before the source is replaced by the original peer, or does not skip the message")
 		}
-		c.Check(selfTest, "C09.A6-pubsub-path", key+" › own republication ignored", watch.Pos(),
-			"for a message with an original peer, pubsub sender == this host skips the message", "the self-republication test does not compare the pubsub sender (msg.From) with this host's ID, or does not skip the message")
-		// the test precedes the replacement of the source by the decoded original peer
-		for _, cs := range c.Calls(watch, Call("peer.Decode", orig)) {
-			c.Check(selfIf != nil && Precedes(selfIf, cs.In), "C09.A6-pubsub-path", key+" › tested before the source is replaced", cs.In.Pos(),
-				"the sender is compared before the original peer is decoded", "the original peer is decoded before the self test: the test would compare the wrong peer")
+		if len(decs) == 0 {
+			c.Bad("C09.A6-pubsub-path", key+" › own republication ignored", watch.Pos(), "the original peer of a republished message is never decoded")
 		}
 		// what is handed on
 		for _, cs := range c.Calls(watch, c.RoleCall("announce.deliver")) {
@@ -271,8 +247,7 @@ func runC09(c *Ctx) {
 					}
 					if fi.Name == "PeerID" {
 						v := fi.Args[0]
-						var srcs []*X
-						flatten(v, &srcs, 0)
+						srcs := c.Leaves(v, cs.In)
 						nS, nD := 0, 0
 						for _, s := range srcs {
 							if _, m := Match(sender, s); m {
@@ -292,7 +267,7 @@ func runC09(c *Ctx) {
 			c.Check(noResend, "C09.A6-pubsub-path", key+" › no re-republication", cs.In.Pos(), "announcements from pubsub are not republished again", "pubsub announcements can be republished (loop)")
 		}
 	}
-	c.Floor("C09.A6-pubsub-path", 4)
+	c.Floor("C09.A6-pubsub-path", 3)
 
 	// ---- A7 capacity ----------------------------------------------------------------------------------------------
 	nCap := 0
